@@ -30,11 +30,16 @@ INVALID = [
     'void f(int x) { if (x) goto zeta; if (x > 1) goto mid; goto alpha; }\n', 'void f(int x) { goto out; goto retry; goto fail; goto done; goto l1; goto l2; goto l3; }\n',
     'static int s1(void); static int s2(void); static int s3(void); int f(void) { return s1() + s2() + s3(); }\nint x = y;\n',
     'int a[]; int b[]; int c[]; struct u; struct u v1, v2;\n',
+    'void (*fp)(void); void g(void) { fp++; }\n',       # fixed 8c9fd0a: added the uninitialised size of the function type
 ]
 
 # valid units that make the emitter extend or patch buffers it got from realloc (zero-extension of string initialisers up to
 # a later designated element, strings patched by element designators, long literals): sensitive to the contents of fresh memory
 VALID_EXTRA = [
+    # fields of type descriptors that only some constructors set: enums with a fixed underlying type and no enumerator list
+    'enum E : signed char; enum U : unsigned char; enum W : short;\nint f(enum E *p, enum U *q, enum W *r) { return *p + *q + (*p >> 1) + (*p < 0) + (*r >> 2) + (*q > 200); }\nlong g(enum E *p) { return *p; }\n',
+    # look-ahead after `..` (pushed back into the stream: must also work when the input is a pipe), multi-line # arguments
+    '#define STR(x) #x\nchar *s1 = STR(lo..hi); char *s2 = STR(a . . b ..c); char *s3 = STR(1..2); char *s4 = STR(x\n ); char *s5 = STR( y z\n\n);\nstruct p { int a, b; } v = { .a = 1, .b = 2 };\n',
     'struct { unsigned short s[8]; unsigned t[6]; int w[9]; char c[12]; } x = { .s = u"ab", .s[6] = 7, .t = U"a", .t[4] = 2, .w = L"abc", .w[7] = 1, .c = "q", .c[9] = 1 };\n',
     'unsigned short a[12] = { u"x", [9] = 3 }; unsigned b[7] = { U"yz", [5] = 4, [6] = 5 }; char c[16] = { "ab", [10] = 122 }; int w[5] = { L"a", [3] = 9 };\n',
     'struct p { char n[5]; unsigned short w[5]; } ps[3] = { [1].n = "a", [1].n[3] = 1, [2].w = u"b", [2].w[4] = 2, [0].w[1] = 3 };\n',
@@ -81,6 +86,9 @@ def run(ctx):
             open(p, 'w').write(s)
             inputs.append((p, ['-t', 'x86_64-sysv']))
         for i, s in enumerate(VALID_EXTRA):
+            p = os.path.join(work, 'vxE%d.c' % i)
+            open(p, 'w').write(s)
+            inputs.append((p, ['-E']))
             for tgt in ('x86_64-sysv', 'aarch64'):
                 p = os.path.join(work, 'vx%d_%s.c' % (i, tgt.split('_')[0].split('-')[0]))     # one file per run: -o names derive from it
                 open(p, 'w').write(s)
